@@ -109,6 +109,7 @@ type Exec struct {
 	rtErrT      types.Type
 	syncMaps    map[*Value]*MapV
 	inMerge     int
+	poolMode    int
 	oracleArg   map[string]Value
 	replacers   map[*Value][][2]*StrV
 	digests     map[string][]Value
